@@ -417,3 +417,27 @@ def ordered_family(tier="quick"):
                  min_size=1, max_size=4),
     ]
     return st.one_of(fams)
+
+
+def natural_of_value(v) -> str:
+    """python's own repr, with prelude class objects spelled by name (rough canonical text)"""
+    return repr(v)
+
+
+def no_dup_keys(d) -> bool:
+    """no dict display / set display of the description lists two equal keys / members"""
+    for x in walk(d):
+        items = None
+        if x[0] == "dict":
+            items = [a for a, _b in x[1]]
+        elif x[0] == "ddict":
+            items = [a for a, _b in x[2]]
+        elif x[0] in ("set", "frozenset"):
+            items = x[1]
+        if items:
+            built = [build(i) for i in items]
+            for i, a in enumerate(built):
+                for b in built[:i]:
+                    if a == b:
+                        return False
+    return True
